@@ -368,4 +368,7 @@ def run(chk, tier):
     chk.floor("value-separator", "backslash splits in value readers", n_split, 7)
     from . import shared
     shared.value_reader_codec_calls(chk, fx, "value-reader-codec-calls")
+    # every codec writes and reads in its own byte order only (shared with C03/C02)
+    from . import c03
+    c03.endianness_purity(chk, fx)
     chk.undecided.append("equality of values after write+read for arbitrary data sets; 'writing never fails' for well-formed data")
